@@ -1,10 +1,710 @@
-//! Family `readline` — stub (replaced by the unit that owns this family).
+//! Family `readline` (C17): `read_line` over a real pipe with controlled chunking.
+//!
+//! Protocol (one request per line, one answer per line):
+//! ```text
+//! chunks <hex>|<hex>|… calls=<k> [delay=<µs>]  -> lines=<hex>,<hex>,… utf8=<one 0/1 per line>
+//! ```
+//! `-` is the empty byte string; with `calls=0` the answer is `lines=none utf8=none`. A call that
+//! fails is shown as `!err<os error>` / `!panic` in place of its hex (utf8 bit `x`); a process
+//! that dies answers `died(<status>)`.
+//!
+//! Meaning: the chunks are written to the standard input of the code under test one `write(2)` at
+//! a time, each only after the previous one has been read completely (`FIONREAD == 0` on the pipe),
+//! then the pipe is closed; the code calls `read_line("")` `k` times. Because a `write` that fits
+//! the (empty) pipe becomes visible atomically and the next one is held back until the pipe is
+//! drained, every `read(2)` of the code under test sees exactly (a buffer-bounded prefix of) one
+//! chunk: the schedule is deterministic, however slow or loaded the machine is.
+//!
+//! Actions:
+//! * `gen --seed S --n N [--valid-utf8] [--no-long] [--cap C]` — request lines (`C`: the buffer's
+//!   initial capacity, default 8192; long lines and cuts are placed around it and its doublings).
+//! * `one` — reads ONE request (raw `read(2)` on its original fd 0), replaces fd 0 by a pipe fed by a
+//!   thread, calls the real `GlobalBuiltin::read_line` `k` times in-process, prints the answer.
+//!   One process per case: the (fixed) code keeps its unread bytes in a process-wide buffer, so
+//!   cases must not share a process.
+//! * `run [--jobs J]` — answers request lines from stdin by spawning `nvh readline one` per case
+//!   (J at a time), and evaluates the oracle: the text cut at `\n` by hand, no model involved.
+//!   `ORACLE-FAIL <line> <what>` on stderr.
+//! * `cli --naija PATH --tmp DIR [--file] [--jobs J]` — the same requests through the real `naija`
+//!   binary running an echo script, stdin through a pipe fed the same way, or (`--file`) from a
+//!   file holding the concatenated chunks. Same answers, same oracle.
 
-pub fn main(_args: &[String]) -> i32 {
-    eprintln!("family readline: not built yet");
-    2
+use std::io::{Read, Write};
+use std::os::fd::AsRawFd;
+use std::process::{Command, Stdio};
+use std::sync::atomic::{AtomicUsize, Ordering};
+use std::sync::Mutex;
+use std::time::Duration;
+
+use naijascript::arena::{Arena, ArenaCow};
+use naijascript::builtins::GlobalBuiltin;
+use naijascript::runtime::Value;
+
+use crate::util::{self, Out, Rng};
+
+/// Largest chunk the feeder accepts: must fit the pipe so that one `write` is one atomic event.
+const PIPE_SIZE: usize = 256 * 1024;
+const MAX_CHUNK: usize = 200 * 1024;
+const MAX_CALLS: usize = 64;
+
+pub fn main(args: &[String]) -> i32 {
+    match args.first().map(String::as_str) {
+        Some("gen") => generate(&args[1..]),
+        Some("one") => one(),
+        Some("run") => run(&args[1..]),
+        Some("cli") => cli(&args[1..]),
+        _ => {
+            eprintln!(
+                "usage: nvh readline gen --seed S --n N [--valid-utf8] [--no-long] [--cap C] | run [--jobs J] | one | \
+                 cli --naija PATH --tmp DIR [--file] [--jobs J]"
+            );
+            2
+        }
+    }
 }
 
-/// Constants/tables of the compiled crate this family wants in `nvh dump-tables`
-/// (JSON key, JSON value text).
+/// Constants/tables of the compiled crate this family wants in `nvh dump-tables`: none — the
+/// constants of `read_line` are private locals and are taken from the source by
+/// `extract/gen_readline.py`.
 pub fn dump_tables(_out: &mut Vec<(String, String)>) {}
+
+// ------------------------------------------------------------------------------------ requests
+
+struct Req {
+    chunks: Vec<Vec<u8>>,
+    calls: usize,
+    delay_us: u64,
+}
+
+fn parse(line: &str) -> Option<Req> {
+    let w: Vec<&str> = line.split_whitespace().collect();
+    if w.len() < 3 || w[0] != "chunks" {
+        return None;
+    }
+    let chunks: Option<Vec<Vec<u8>>> = w[1].split('|').map(util::unhex).collect();
+    let chunks = chunks?;
+    let calls: usize = w[2].strip_prefix("calls=")?.parse().ok()?;
+    let mut delay_us = 0;
+    for x in &w[3..] {
+        if let Some(d) = x.strip_prefix("delay=") {
+            delay_us = d.parse().ok()?;
+        }
+    }
+    if calls > MAX_CALLS || chunks.iter().any(|c| c.len() > MAX_CHUNK) {
+        return None;
+    }
+    Some(Req { chunks, calls, delay_us })
+}
+
+fn request_line(chunks: &[Vec<u8>], calls: usize, delay_us: u64) -> String {
+    let c: Vec<String> = chunks.iter().map(|c| util::hex(c)).collect();
+    let mut s = format!("chunks {} calls={}", c.join("|"), calls);
+    if delay_us > 0 {
+        s.push_str(&format!(" delay={delay_us}"));
+    }
+    s
+}
+
+/// One result of a call: the bytes, or what went wrong.
+enum CallResult {
+    Line(Vec<u8>),
+    Bad(String),
+}
+
+fn render(results: &[CallResult]) -> String {
+    if results.is_empty() {
+        return "lines=none utf8=none".to_string();
+    }
+    let mut lines = Vec::new();
+    let mut bits = String::new();
+    for r in results {
+        match r {
+            CallResult::Line(b) => {
+                lines.push(util::hex(b));
+                bits.push(if std::str::from_utf8(b).is_ok() { '1' } else { '0' });
+            }
+            CallResult::Bad(what) => {
+                lines.push(format!("!{what}"));
+                bits.push('x');
+            }
+        }
+    }
+    format!("lines={} utf8={}", lines.join(","), bits)
+}
+
+/// The oracle: the first `k` lines of the text, cut at `\n` by hand. Independent of the Lean model
+/// and of the implementation.
+fn oracle_lines(text: &[u8], k: usize) -> Vec<Vec<u8>> {
+    let mut out = Vec::new();
+    let mut pos = 0usize;
+    for _ in 0..k {
+        let mut end = pos;
+        while end < text.len() && text[end] != b'\n' {
+            end += 1;
+        }
+        out.push(text[pos..end].to_vec());
+        pos = if end < text.len() { end + 1 } else { end };
+    }
+    out
+}
+
+fn oracle_answer(req: &Req) -> String {
+    let text: Vec<u8> = req.chunks.concat();
+    let want: Vec<CallResult> = oracle_lines(&text, req.calls).into_iter().map(CallResult::Line).collect();
+    render(&want)
+}
+
+fn short(s: &str) -> String {
+    if s.len() > 160 { format!("{}…({} chars)", &s[..160], s.len()) } else { s.to_string() }
+}
+
+/// Compare an implementation answer with the oracle; `Some(what)` on failure.
+fn oracle_check(req: &Req, answer: &str) -> Option<String> {
+    let want = oracle_answer(req);
+    if answer != want {
+        return Some(format!("lines differ: got {} want {}", short(answer), short(&want)));
+    }
+    None
+}
+
+// ------------------------------------------------------------------------------------- feeding
+
+fn pending_bytes(fd: i32) -> i32 {
+    let mut n: libc::c_int = 0;
+    let r = unsafe { libc::ioctl(fd, libc::FIONREAD, &mut n) };
+    if r < 0 { -1 } else { n }
+}
+
+fn write_all_fd(fd: i32, mut data: &[u8]) -> bool {
+    while !data.is_empty() {
+        let n = unsafe { libc::write(fd, data.as_ptr().cast(), data.len()) };
+        if n < 0 {
+            let e = std::io::Error::last_os_error();
+            if e.kind() == std::io::ErrorKind::Interrupted {
+                continue;
+            }
+            return false; // EPIPE: the reader is gone
+        }
+        data = &data[n as usize..];
+    }
+    true
+}
+
+/// Write the chunks to `fd` one at a time, each only once the pipe is empty; `alive()` says whether
+/// the reader still exists. Does not close `fd`.
+fn feed(fd: i32, chunks: &[Vec<u8>], delay_us: u64, alive: &mut dyn FnMut() -> bool) {
+    let wait_drained = |alive: &mut dyn FnMut() -> bool| -> bool {
+        let mut spins = 0u32;
+        loop {
+            match pending_bytes(fd) {
+                0 => return true,
+                n if n < 0 => return false,
+                _ => {}
+            }
+            spins += 1;
+            if spins % 64 == 0 && !alive() {
+                return false;
+            }
+            std::thread::sleep(Duration::from_micros(if spins < 200 { 20 } else { 200 }));
+        }
+    };
+    for c in chunks {
+        if c.is_empty() {
+            continue; // a zero-length write is no event for the reader
+        }
+        if !wait_drained(alive) {
+            return;
+        }
+        if delay_us > 0 {
+            std::thread::sleep(Duration::from_micros(delay_us));
+        }
+        if !write_all_fd(fd, c) {
+            return;
+        }
+    }
+    if wait_drained(alive) && delay_us > 0 {
+        std::thread::sleep(Duration::from_micros(delay_us));
+    }
+}
+
+fn grow_pipe(fd: i32) -> bool {
+    let r = unsafe { libc::fcntl(fd, libc::F_SETPIPE_SZ, PIPE_SIZE as libc::c_int) };
+    if r >= 0 {
+        return true;
+    }
+    let have = unsafe { libc::fcntl(fd, libc::F_GETPIPE_SZ) };
+    have >= PIPE_SIZE as libc::c_int
+}
+
+// ----------------------------------------------------------------------------- one (in-process)
+
+fn read_all_fd0() -> Vec<u8> {
+    let mut buf = Vec::new();
+    let mut tmp = [0u8; 65536];
+    loop {
+        let n = unsafe { libc::read(0, tmp.as_mut_ptr().cast(), tmp.len()) };
+        if n < 0 {
+            if std::io::Error::last_os_error().kind() == std::io::ErrorKind::Interrupted {
+                continue;
+            }
+            break;
+        }
+        if n == 0 {
+            break;
+        }
+        buf.extend_from_slice(&tmp[..n as usize]);
+    }
+    buf
+}
+
+fn one() -> i32 {
+    util::silence_panics();
+    // Safety net for the whole case: a hung case dies with SIGALRM and the parent reports it.
+    unsafe { libc::alarm(120) };
+    let raw = read_all_fd0();
+    let text = String::from_utf8_lossy(&raw);
+    let Some(req) = text.lines().next().and_then(parse) else {
+        println!("bad-request");
+        return 0;
+    };
+    let mut fds = [0i32; 2];
+    if unsafe { libc::pipe(fds.as_mut_ptr()) } != 0 {
+        println!("machinery(pipe)");
+        return 0;
+    }
+    let (rfd, wfd) = (fds[0], fds[1]);
+    if !grow_pipe(wfd) && req.chunks.iter().any(|c| c.len() > 60_000) {
+        println!("machinery(pipe-size)");
+        return 0;
+    }
+    unsafe {
+        libc::dup2(rfd, 0);
+        libc::close(rfd);
+    }
+    let chunks = req.chunks.clone();
+    let delay = req.delay_us;
+    // never joined: when the calls are done the process exits, whatever the feeder is waiting for
+    std::thread::spawn(move || {
+        feed(wfd, &chunks, delay, &mut || true);
+        unsafe { libc::close(wfd) };
+    });
+
+    let arena = Arena::new(256 << 20).expect("arena");
+    let prompt = Value::Str(ArenaCow::Borrowed(""));
+    let mut results = Vec::new();
+    for _ in 0..req.calls {
+        let r = util::catch(|| GlobalBuiltin::read_line(&prompt, &arena).map(|s| s.as_bytes().to_vec()));
+        results.push(match r {
+            Ok(Ok(bytes)) => CallResult::Line(bytes),
+            Ok(Err(e)) => CallResult::Bad(format!("err{}", e.raw_os_error().unwrap_or(0))),
+            Err(_) => CallResult::Bad("panic".to_string()),
+        });
+    }
+    let mut out = std::io::stdout().lock();
+    let _ = writeln!(out, "{}", render(&results));
+    let _ = out.flush();
+    0
+}
+
+// --------------------------------------------------------------------------------- run (parent)
+
+fn jobs(args: &[String]) -> usize {
+    let dflt = std::thread::available_parallelism().map_or(4, |n| n.get()).min(8) as u64;
+    util::opt_u64(args, "--jobs", dflt).max(1) as usize
+}
+
+/// Run `work(i, request)` for every request on `jobs` threads; answers in request order.
+fn parallel(lines: &[String], jobs: usize, work: impl Fn(usize, &str) -> String + Sync) -> Vec<String> {
+    let next = AtomicUsize::new(0);
+    let answers: Mutex<Vec<Option<String>>> = Mutex::new(vec![None; lines.len()]);
+    std::thread::scope(|s| {
+        for _ in 0..jobs.min(lines.len().max(1)) {
+            s.spawn(|| {
+                loop {
+                    let i = next.fetch_add(1, Ordering::SeqCst);
+                    if i >= lines.len() {
+                        break;
+                    }
+                    let a = work(i, &lines[i]);
+                    answers.lock().unwrap()[i] = Some(a);
+                }
+            });
+        }
+    });
+    answers.into_inner().unwrap().into_iter().map(|a| a.unwrap_or_else(|| "lost".to_string())).collect()
+}
+
+fn status_name(st: std::process::ExitStatus) -> String {
+    use std::os::unix::process::ExitStatusExt;
+    match (st.code(), st.signal()) {
+        (Some(c), _) => format!("exit{c}"),
+        (None, Some(14)) => "timeout".to_string(),
+        (None, Some(s)) => format!("signal{s}"),
+        _ => "unknown".to_string(),
+    }
+}
+
+fn run_one_subprocess(exe: &std::path::Path, request: &str) -> String {
+    let child = Command::new(exe)
+        .args(["readline", "one"])
+        .stdin(Stdio::piped())
+        .stdout(Stdio::piped())
+        .stderr(Stdio::null())
+        .env("RUST_BACKTRACE", "0")
+        .spawn();
+    let mut child = match child {
+        Ok(c) => c,
+        Err(e) => return format!("machinery(spawn:{e})"),
+    };
+    {
+        let mut stdin = child.stdin.take().unwrap();
+        let _ = stdin.write_all(request.as_bytes());
+        let _ = stdin.write_all(b"\n");
+    }
+    let out = match child.wait_with_output() {
+        Ok(o) => o,
+        Err(e) => return format!("machinery(wait:{e})"),
+    };
+    let text = String::from_utf8_lossy(&out.stdout);
+    match text.lines().next() {
+        Some(l) if out.status.success() => l.to_string(),
+        _ => format!("died({})", status_name(out.status)),
+    }
+}
+
+fn emit(lines: &[String], answers: &[String]) -> i32 {
+    let mut out = Out::new();
+    for (i, (l, a)) in lines.iter().zip(answers).enumerate() {
+        out.line(a);
+        if let Some(req) = parse(l) {
+            if let Some(what) = oracle_check(&req, a) {
+                eprintln!("ORACLE-FAIL {} {}", i + 1, what);
+            }
+        }
+    }
+    0
+}
+
+fn run(args: &[String]) -> i32 {
+    let lines = util::stdin_lines();
+    let exe = std::env::current_exe().expect("current_exe");
+    let answers = parallel(&lines, jobs(args), |_i, l| {
+        if parse(l).is_none() {
+            return "bad-request".to_string();
+        }
+        run_one_subprocess(&exe, l)
+    });
+    emit(&lines, &answers)
+}
+
+// ------------------------------------------------------------------------------- cli (naija)
+
+/// The echo script for `k` calls. Two shapes: straight-line code, and a loop (whose body runs on
+/// the runtime's frame arena, reset on every iteration).
+fn script(k: usize, looped: bool) -> String {
+    let mut s = String::new();
+    if looped {
+        s.push_str(&format!(
+            "make i get 0\njasi (i small pass {k}) start\n    make l get read_line(\"\")\n    shout(l)\n    i get i add 1\nend\n"
+        ));
+    } else {
+        for i in 0..k {
+            s.push_str(&format!("make l{i} get read_line(\"\")\nshout(l{i})\n"));
+        }
+    }
+    s
+}
+
+fn cli_case(naija: &str, tmp: &str, from_file: bool, i: usize, request: &str) -> String {
+    let Some(req) = parse(request) else {
+        return "bad-request".to_string();
+    };
+    let pid = std::process::id();
+    let looped = i % 2 == 1;
+    let script_path = format!("{tmp}/c17-{pid}-k{}-{}.ns", req.calls, if looped { "loop" } else { "flat" });
+    if !std::path::Path::new(&script_path).exists() {
+        // written under a private name and renamed, so that no other worker sees half a file
+        let part = format!("{script_path}.{i}.part");
+        if std::fs::write(&part, script(req.calls, looped)).is_err() || std::fs::rename(&part, &script_path).is_err() {
+            return "machinery(script)".to_string();
+        }
+    }
+    let mut cmd = Command::new(naija);
+    cmd.arg(&script_path).stdout(Stdio::piped()).stderr(Stdio::null()).env("RUST_BACKTRACE", "0").env("NO_COLOR", "1");
+    let input_path = format!("{tmp}/c17-{pid}-{i}.in");
+    if from_file {
+        if std::fs::write(&input_path, req.chunks.concat()).is_err() {
+            return "machinery(input-file)".to_string();
+        }
+        match std::fs::File::open(&input_path) {
+            Ok(f) => cmd.stdin(Stdio::from(f)),
+            Err(_) => return "machinery(input-file)".to_string(),
+        };
+    } else {
+        cmd.stdin(Stdio::piped());
+    }
+    let mut child = match cmd.spawn() {
+        Ok(c) => c,
+        Err(e) => return format!("machinery(spawn:{e})"),
+    };
+    let mut stdout = child.stdout.take().unwrap();
+    let reader = std::thread::spawn(move || {
+        let mut buf = Vec::new();
+        let _ = stdout.read_to_end(&mut buf);
+        buf
+    });
+    if !from_file {
+        let stdin = child.stdin.take().unwrap();
+        let fd = stdin.as_raw_fd();
+        if !grow_pipe(fd) && req.chunks.iter().any(|c| c.len() > 60_000) {
+            let _ = child.kill();
+            let _ = child.wait();
+            return "machinery(pipe-size)".to_string();
+        }
+        feed(fd, &req.chunks, req.delay_us, &mut || matches!(child.try_wait(), Ok(None)));
+        drop(stdin); // EOF
+    }
+    let status = child.wait();
+    let output = reader.join().unwrap_or_default();
+    if from_file {
+        let _ = std::fs::remove_file(&input_path);
+    }
+    let status = match status {
+        Ok(s) => s,
+        Err(e) => return format!("machinery(wait:{e})"),
+    };
+    if !status.success() {
+        return format!("died({})", status_name(status));
+    }
+    // `shout` prints the line and a newline; a line holds no newline, so cutting at `\n` is exact
+    let mut pieces: Vec<&[u8]> = output.split(|&b| b == b'\n').collect();
+    if pieces.pop().is_none_or(|last| !last.is_empty()) || pieces.len() != req.calls {
+        return format!("malformed-output({} pieces for {} calls)", pieces.len(), req.calls);
+    }
+    let results: Vec<CallResult> = pieces.into_iter().map(|p| CallResult::Line(p.to_vec())).collect();
+    render(&results)
+}
+
+fn cli(args: &[String]) -> i32 {
+    let (Some(naija), Some(tmp)) = (util::opt(args, "--naija"), util::opt(args, "--tmp")) else {
+        eprintln!("usage: nvh readline cli --naija PATH --tmp DIR [--file] [--jobs J]");
+        return 2;
+    };
+    let from_file = util::flag(args, "--file");
+    let lines = util::stdin_lines();
+    let answers = parallel(&lines, jobs(args), |i, l| cli_case(naija, tmp, from_file, i, l));
+    // leave no scripts behind
+    let pid = std::process::id();
+    if let Ok(rd) = std::fs::read_dir(tmp) {
+        for e in rd.flatten() {
+            if e.file_name().to_string_lossy().starts_with(&format!("c17-{pid}-")) {
+                let _ = std::fs::remove_file(e.path());
+            }
+        }
+    }
+    emit(&lines, &answers)
+}
+
+// ----------------------------------------------------------------------------------- generator
+
+const UNITS_VALID: &[&str] = &["a", "b", "z", "0", " ", "\t", "é", "ñ", "€", "語", "😀", "\r"];
+
+/// Line lengths around the buffer's initial capacity and its doublings.
+fn long_lengths(cap: usize) -> Vec<usize> {
+    let c = cap.clamp(4, 16384);
+    vec![c - 2, c - 1, c, c + 1, c + 2, c + c / 2, 2 * c - 1, 2 * c, 2 * c + 1, 3 * c + 1, 4 * c + 232]
+}
+
+fn push_units(rng: &mut Rng, line: &mut Vec<u8>, n: u64, valid_only: bool) {
+    for _ in 0..n {
+        if !valid_only && rng.chance(1, 12) {
+            // bytes that are not UTF-8: a lone continuation byte, a truncated lead, 0xFF
+            line.extend_from_slice(*rng.pick(&[&[0x80u8][..], &[0xC3], &[0xFF], &[0xE2, 0x82], &[0xF0, 0x9F]]));
+        } else {
+            line.extend_from_slice(rng.pick(UNITS_VALID).as_bytes());
+        }
+    }
+}
+
+/// A line of exactly `len` bytes (no `\n`), built from a repeated unit so that multi-byte characters
+/// straddle the 8 KiB buffer edges, padded with ASCII.
+fn long_line(rng: &mut Rng, len: usize) -> Vec<u8> {
+    let mut line = Vec::with_capacity(len);
+    for _ in 0..rng.below(4) {
+        line.push(b'p');
+    }
+    let unit = *rng.pick(&["x", "é", "€", "😀", "a€", "é😀b"]);
+    while line.len() + unit.len() <= len {
+        line.extend_from_slice(unit.as_bytes());
+    }
+    while line.len() < len {
+        line.push(b'y');
+    }
+    line.truncate(len);
+    line
+}
+
+struct Text {
+    bytes: Vec<u8>,
+    lines: usize, // number of calls that return something from the text
+}
+
+fn gen_text(rng: &mut Rng, valid_only: bool, allow_long: bool, cap: usize) -> Text {
+    let nlines = *rng.pick(&[0u64, 1, 1, 2, 2, 2, 3, 3, 3, 4, 4, 5, 6]);
+    let mut bytes = Vec::new();
+    let mut longs = 0;
+    // bytes that are not UTF-8 only in one text out of six
+    let valid_only = valid_only || !rng.chance(1, 6);
+    for i in 0..nlines {
+        let mut line = Vec::new();
+        match rng.below(100) {
+            0..=54 => {
+                let n = rng.below(4);
+                push_units(rng, &mut line, n, valid_only);
+            }
+            55..=69 => {
+                let n = 4 + rng.below(37);
+                push_units(rng, &mut line, n, valid_only);
+            }
+            70..=81 if allow_long && longs < 2 => {
+                longs += 1;
+                let len = *rng.pick(&long_lengths(cap));
+                line = long_line(rng, len);
+            }
+            82..=89 => {
+                // CRLF ending (the `\r` is part of the line for this code)
+                let n = rng.below(4);
+                push_units(rng, &mut line, n, valid_only);
+                line.push(b'\r');
+            }
+            _ => {} // empty line
+        }
+        // keep the generator honest: no newline inside a line
+        line.retain(|&b| b != b'\n');
+        bytes.extend_from_slice(&line);
+        let last = i + 1 == nlines;
+        if !last || rng.chance(7, 10) {
+            bytes.push(b'\n');
+        }
+    }
+    let newlines = bytes.iter().filter(|&&b| b == b'\n').count();
+    let partial = usize::from(bytes.last().is_some_and(|&b| b != b'\n'));
+    Text { bytes, lines: newlines + partial }
+}
+
+fn cut_at(text: &[u8], cuts: &mut Vec<usize>) -> Vec<Vec<u8>> {
+    cuts.retain(|&c| c > 0 && c < text.len());
+    cuts.sort_unstable();
+    cuts.dedup();
+    let mut out = Vec::new();
+    let mut prev = 0;
+    for &c in cuts.iter() {
+        out.push(text[prev..c].to_vec());
+        prev = c;
+    }
+    out.push(text[prev..].to_vec());
+    out
+}
+
+fn gen_chunking(rng: &mut Rng, text: &[u8], cap: usize) -> Vec<Vec<u8>> {
+    let n = text.len();
+    if n == 0 {
+        return vec![Vec::new()];
+    }
+    let newlines: Vec<usize> = (0..n).filter(|&i| text[i] == b'\n').collect();
+    let mut cuts: Vec<usize> = Vec::new();
+    let mut kind = rng.below(10);
+    if kind == 1 && n > 48 {
+        kind = 5;
+    }
+    match kind {
+        0 => {}                                                   // all at once
+        1 => cuts.extend(1..n),                                   // one byte at a time
+        2 => cuts.extend(newlines.iter().map(|&i| i + 1)),        // newline ends a chunk
+        3 => cuts.extend(newlines.iter().copied()),               // newline starts a chunk
+        4 => cuts.extend(newlines.iter().skip(1).step_by(2).map(|&i| i + 1)), // two lines per chunk
+        5 => {
+            for _ in 0..1 + rng.below(6) {
+                cuts.push(rng.below(n as u64) as usize);
+            }
+        }
+        6 => {
+            // around the buffer edges (initial capacity and its doublings), relative to the text
+            // and to the start of each line
+            let mut bases = vec![0usize];
+            bases.extend(newlines.iter().map(|&i| i + 1));
+            for b in bases {
+                for edge in [cap, 2 * cap, 4 * cap] {
+                    if rng.chance(1, 2) {
+                        cuts.push((b + edge).wrapping_add_signed(rng.range(-2, 2) as isize));
+                    }
+                }
+            }
+            if rng.chance(1, 2) {
+                cuts.push(rng.below(n as u64) as usize);
+            }
+        }
+        7 => {
+            // every newline alone in its chunk
+            for &i in &newlines {
+                cuts.push(i);
+                cuts.push(i + 1);
+            }
+        }
+        8 => {
+            // inside multi-byte characters (the kernel does not care about character boundaries)
+            let inside: Vec<usize> = (1..n).filter(|&i| text[i] & 0xC0 == 0x80).collect();
+            for _ in 0..1 + rng.below(4) {
+                if !inside.is_empty() {
+                    cuts.push(*rng.pick(&inside));
+                } else {
+                    cuts.push(rng.below(n as u64) as usize);
+                }
+            }
+        }
+        _ => {
+            // a mix: some newline edges, some random cuts
+            for &i in &newlines {
+                match rng.below(4) {
+                    0 => cuts.push(i),
+                    1 => cuts.push(i + 1),
+                    _ => {}
+                }
+            }
+            cuts.push(rng.below(n as u64) as usize);
+        }
+    }
+    let mut chunks = cut_at(text, &mut cuts);
+    if rng.chance(1, 20) {
+        // an empty chunk somewhere: nothing for the reader to see
+        let at = rng.below(chunks.len() as u64 + 1) as usize;
+        chunks.insert(at, Vec::new());
+    }
+    chunks
+}
+
+fn generate(args: &[String]) -> i32 {
+    let seed = util::opt_u64(args, "--seed", 1);
+    let n = util::opt_u64(args, "--n", 500);
+    let valid_only = util::flag(args, "--valid-utf8");
+    let allow_long = !util::flag(args, "--no-long");
+    let cap = util::opt_u64(args, "--cap", 8192) as usize;
+    let mut rng = Rng::new(seed ^ 0xC17);
+    let mut out = Out::new();
+    for _ in 0..n {
+        let text = gen_text(&mut rng, valid_only, allow_long, cap);
+        let chunks = gen_chunking(&mut rng, &text.bytes, cap);
+        let l = text.lines;
+        let calls = match rng.below(10) {
+            0..=5 => l + 1,
+            6 => l + 2,
+            7 => l,
+            8 => rng.below(l as u64 + 1) as usize,
+            _ => 1,
+        }
+        .min(10);
+        let delay = if chunks.len() <= 8 && rng.chance(1, 10) { 300 } else { 0 };
+        out.line(&request_line(&chunks, calls, delay));
+    }
+    0
+}
